@@ -121,7 +121,8 @@ BASES_MB = [
     "é{% set v = 'ü' %}€\né{{ v }} {{- s -}}　\n{% with q = 1 %}{{ q }}{% endwith %}€",
 ]
 INSERTS = ["€", "'", "\"", "{#", ")", "{{", "{%", "}}", "%}", "?", "(", " in ", "{{ '",
-           "340282366920938463463374607431768211456 ", "é", "{% for in seq %}"]
+           "340282366920938463463374607431768211456 ", "é", "{% for in seq %}",
+           "{{ \"é\\xZZ\" }}", "'日本\\u12'", " ~ \"🐍\\x\""]
 
 
 def mutants(base):
@@ -308,6 +309,61 @@ def build_eoi_groups(chk):
     return groups
 
 
+BAD_ESCAPES = ["\\xZZ", "\\x1", "\\x", "\\xé1", "\\u12", "\\uZZZZ", "\\u", "\\u12é4", "\\400", "\\777", "\\ud800", "\\udc00", "\\ud800\\u0041",
+               "\\ud800x", "\\ud800\\ud800", "\\"]   # the last one: the backslash escapes the closing quote -> unterminated
+GOOD_ESCAPES = ["\\n", "\\x41", "\\u00e9", "\\ud83d\\udc0d", "\\101", "\\q", "\\\\", "\\'\\\""]
+LIT_PREFIXES = ["", "a", "é", "€", "🐍", "日本", "aé€🐍b", "ééé", "\u0080\u07ff\u0800\uffff\U00010000"]   # 1-, 2-, 3-, 4-byte characters
+LIT_SUFFIXES = ["", "z", "é€"]
+LIT_CONTEXTS = ["{{ @ }}", "{% set x = @ %}", "{{ s ~ @ }}", "{{ range(1, @) }}", "{% if s == @ %}y{% endif %}", "{% include @ %}",
+                "{{ {'k': @} }}", "{{ [\n 1,\n @ ] }}", "{{ @|upper }}", "{% for c in @ %}{{ c }}{% endfor %}"]
+LIT_LINE_PREFIXES = ["", "line one\n", "é€ text ", "日本\n  ", "{{ 1 }}🐍 ", "a\r\n\r\n"]
+
+
+def build_literal_groups(chk):
+    """erroneous (and, as controls, valid) string literals: every kind of bad escape x 1/2/3/4-byte characters in front of
+    the first backslash x single/multi-line literal x position of the literal, in templates and in expressions"""
+    rng = chk.rng
+    groups = []
+    combos = []
+    for esc in BAD_ESCAPES + GOOD_ESCAPES:
+        for lp in LIT_PREFIXES:
+            for ls in LIT_SUFFIXES:
+                for q in "'\"":
+                    for ml in (0, 1, 2):           # literal on one line / newline before / newline after the escape
+                        for ctx in LIT_CONTEXTS + ["expr:@", "expr:s ~\n @", "expr:[1, @]"]:
+                            for pre in LIT_LINE_PREFIXES:
+                                combos.append((esc, lp, ls, q, ml, ctx, pre))
+    want = 30000 if chk.thorough else 2200
+    step = max(1, len(combos) // want)
+    off = rng.below(step)
+    picked = combos[off::step]
+    # every bad escape with every literal prefix at least once, whatever the sampling
+    for esc in BAD_ESCAPES:
+        for lp in LIT_PREFIXES:
+            picked.append((esc, lp, rng.choice(LIT_SUFFIXES), rng.choice("'\""), 0, rng.choice(LIT_CONTEXTS), rng.choice(LIT_LINE_PREFIXES)))
+            picked.append((esc, lp, "", "\"", 0, "expr:@", ""))
+    for esc, lp, ls, q, ml, ctx, pre in picked:
+        body = (lp + "\n" if ml == 1 else lp) + esc + ("\n" + ls if ml == 2 else ls)
+        lit = q + body + q
+        is_expr = ctx.startswith("expr:")
+        text = (ctx[5:] if is_expr else pre + ctx).replace("@", lit)
+        variants = [{"n": 0, "h": 0, "pb": 0, "hb": 0, "at": 0, "tpls": [[(1, text)]]}]
+        if rng.chance(1, 3):
+            nl = rng.choice([1, 2, 17])
+            pad = "\n" if is_expr else rng.choice(["x\n", "p€d é\n", "\n"])
+            variants.append({"n": nl, "h": 0, "pb": nl * blen(pad), "hb": 0, "at": 0, "where": "top", "pad": pad, "tpls": [[(nl, pad), (1, text)]]})
+        if rng.chance(1, 3):
+            hn = rng.choice([1, 3, 7])
+            hpad = " " if is_expr else rng.choice(HPADS + ["日"])
+            variants.append({"n": 0, "h": hn, "pb": 0, "hb": hn * blen(hpad), "at": 0, "where": "top", "pad": hpad, "tpls": [[(hn, hpad), (1, text)]]})
+        ws = rng.choice(WS_ALL) if rng.chance(1, 3) else 0
+        fl = (64 | ws) if is_expr else (ws | (rng.below(4) << 4))
+        groups.append({"family": "expr" if is_expr else "syntax", "base": "literal", "construct": "literal",
+                       "mutation": "literal:%r in %r after %r" % (lit, ctx, pre), "plant": "literal:%r in %r" % (lit, ctx),
+                       "which": 0, "flags": fl, "variants": variants})
+    return groups
+
+
 EXPRS = ["", " ", "\t", "\n", "\n\n ", "\r\n", "(", "1 +", "1 +\n", "a.\n", "[1,\n2", "'abc", "\"a\nb", "1 2", "€", "a b", "a[", "{", "1 if",
          "\n\n)", "x(\n1,\n", "99999999999999999999999999999999999999999", "1_", "a\r\n+\r\n", "not", "a ~", "{'a':", "a is", "a|", "é",
          # errors while evaluating
@@ -390,6 +446,9 @@ def build_syntax_groups(chk):
         off = rng.below(step)
         allm = hand + rest[off::step]
     for bi, name, text in allm:
+        if bi != -1 and rng.chance(1, 3):
+            text = rng.choice(["é ", "日本🐍é ", "€\n«» "]) + text
+            name = "nonascii-prefix+" + name
         variants = [{"n": 0, "h": 0, "pb": 0, "hb": 0, "at": 0, "tpls": [[(1, text)]]}]
         if chk.thorough:
             nset = [1, 2, 17, 255] + ([65000] if rng.chance(1, 8) else [])
@@ -586,7 +645,7 @@ def main():
         else:
             groups, tokcases, tabcases = [], [], [rp["case"]]
     else:
-        groups = (build_syntax_groups(chk) + build_eoi_groups(chk) + build_runtime_groups(chk) + build_lineending_groups(chk)
+        groups = (build_syntax_groups(chk) + build_eoi_groups(chk) + build_literal_groups(chk) + build_runtime_groups(chk) + build_lineending_groups(chk)
                   + build_expr_groups(chk) + build_fuel_groups(chk))
         tabcases = build_table_cases(chk)
         tokcases = None
@@ -691,7 +750,7 @@ def main():
                 continue
             e = r[1][1][0]
             o = tok["model"][i] if tok["model"][i] and tok["model"][i][0] == 0 and not (tokcases[i][1] & 12) else tok["impl"][False][i]
-            if not o or o[0] != 0 or e["kind"] != 4 or e["rtag"] != 1:
+            if not o or o[0] != 0 or e["kind"] not in (4, 12) or e["rtag"] != 1:
                 continue
             nt = o[1]
             cands = set()
